@@ -13,7 +13,23 @@
    from the fabricated /sys, /dev and WildMatch and compared with what the real
    code selected (DIFF class SELECT); the extracted specifications spec_all /
    spec_dev_file / no_virtual_listed decide the hits C16.select_all,
-   C16.select_devfile, C16.virtual on the real selections. *)
+   C16.select_devfile, C16.virtual on the real selections.
+   What "selected" is observed through (field basis= of every DIFF/HIT line):
+     open   PRIMARY: the nodes of the fabricated /dev/input the run opened
+            (lines SAO/SDO/RAO/RDO/RUO, inotify).  The loop opens the selected
+            nodes in order and stops at the first failure (a fabricated node is a
+            plain file), so: only selected nodes may be opened, and the first
+            selected node that exists must be; the auto mode (RUO) opens exactly
+            the selected nodes that exist.
+     log    SECONDARY: the verbose log (SA/SD/RA/RD/RU).  Judged only where it has
+            the expected shape (a count that equals the entries it reports as
+            selected) AND agrees with the opens of the same run; otherwise counted
+            in NSSUMMARY (ns_log_unparsed_.., ns_log_disagree_..) without a verdict.
+            tools/engines/listing.py drops every basis=log line of a run in which
+            any log was unparsed or contradicted the opens.
+     value  return values of the public listing functions
+     listout stdout of `list_keyboards` (compared only when every line has the
+            shape "<name>: /dev/...") *)
 
 open Model
 
